@@ -53,8 +53,9 @@ def run(ctx):
         i, k, r = meta[j]
         m = models[i]
         degenerate = any((t["k"] in ("NN", "Real") and (t["lo"] == "inf" or t["hi"] == "-inf" or t["lo"] == "NaN" or t["hi"] == "NaN")) for t in m["types"])
+        astronomic = S.SOLVERS[k] == "clarabel" and any(abs(float(v)) >= 1e12 for _, v in r["assign"])
         fails.append({"kind": "solution-rejected-by-verified-checker", "solver": S.SOLVERS[k], "input": m["text"], "solution": r,
-                      "class": "degenerate-domain" if degenerate else "unclassified"})
+                      "class": "degenerate-domain" if degenerate else ("clarabel-solved-with-astronomic-values-on-unbounded-model" if astronomic else "unclassified")})
     new = C.triage_failures(ctx, fails, describe)
     by_solver = collections.Counter(S.SOLVERS[k] for (_, k, _) in meta)
     samples = [{"model": models[i]["text"], "solver": S.SOLVERS[k], "solution": {"value": r["value"], "assign": r["assign"], "constraints": r["constraints"]}, "checker": "accepted" if j not in bad else "rejected"}
